@@ -71,6 +71,14 @@ CHECKS = {
             "model update of a fresh copy and every other holder must still see the old value.",
             "Trusted: the Python models (vp/c11_coll.py). Thread hand-offs are sequenced; interleavings of the reference-count operations are C05's subject.",
             "DESIGN.md §3 C03"),
+    "C04": ("exploration",
+            "exhaustive enumeration of root locations x collection schedules: every program of a root-location grammar is run with a forced full collection at every single allocation ordinal, at all of them, and at explicit collection requests (fault-injection style enumeration of collection points on the real collector)",
+            "~40 root locations (pending argument, let temporary, closures on the stack / in globals / nested, assigned captured variables, continuations, handlers, "
+            "globals incl. shadowed ones, containers, cycles, callbacks of native higher-order procedures, transducers, sort comparators, apply/rest arguments, loop "
+            "variables, deep recursion frames, another thread's stack, weak boxes) x 4 mutable object kinds; for a program with A allocations: no forced collection, "
+            "forced at each ordinal 1..A, at every odd ordinal, at every allocation; JIT on/off. The sentinel values must read back unchanged and no access may touch a reclaimed slot.",
+            "Trusted: hook H4 (forced collections use the call site's real roots and skip heap growth); host-rooted values and TLS are not in the grammar yet.",
+            "DESIGN.md §3 C04"),
 }
 
 NOT_YET = {}
